@@ -74,6 +74,9 @@ func (n *Net) nextDeputy(parent *types.Block, nowSec int64) int {
 func chainRun(c *Ctx, net *Net, g *TxGen, f *Factory, o ChainRunOpts) {
 	parent := f.Blocks[net.GenBlock.Hash()]
 	nBlocks := 2 + c.Draw("gen", o.MaxBlocks-1)
+	if o.Terms && c.Draw("gen", 2) == 0 {
+		nBlocks = o.MaxBlocks // half of the term runs go all the way to the reward block
+	}
 	for h := 1; h <= nBlocks; h++ {
 		// advance the clock by less than one slot so deputies rotate, sometimes by several
 		step := time.Duration(net.P.SlotMs) * time.Millisecond
